@@ -198,6 +198,20 @@ CLAIMS['C18'] = ('exploration',
     'D7 (string prefix) and D33 (order-dependent reduction) were found by this check and fixed.', '5 C18')
 NOT_YET = {
 }
+TECHNIQUE = {
+    'C18': 'bounded stand-in (exhaustive small-scope enumeration on the real genIndex, labelled bounded, not a proof) + '
+           'contract-based deductive verification of MibCompiler.buildIndex (pyvc VCs, z3/cvc5)',
+    'C14': 'contract-based deductive verification of getMibVariants (pyvc VCs, z3/cvc5) + bounded stand-ins (small-scope '
+           'enumeration on the real ZipReader, FileReader, getReadersFromUrls)',
+    'C16': 'contract-based deductive verification (pyvc VCs, z3/cvc5) of genImports / symTrans / genSimpleSyntax / '
+           'genTrapType + exhaustive table lemmas over the real conversion data + bounded stand-in for the rewriting',
+    'C20': 'contract-based deductive verification of the mibdump script region and the writers (pyvc VCs, z3/cvc5) + '
+           'bounded stand-in for mibcopy (the real script on a small scope of scenarios)',
+    'C17': 'lockstep lemma over the real LR tables (exact table computation) + contract-based deductive verification of '
+           'the factories and grammar actions (pyvc VCs, z3/cvc5)',
+    'C08': 'contract-based deductive verification (pyvc VCs from the real AST, z3/cvc5; loop invariants, step clauses, '
+           'cvc5 finite-set cardinality lemma for termination)',
+}
 
 NOT_APPLICABLE = {
     'C04': 'The mechanism is the Jinja2 template templates/pysnmp/*.j2 (a different language): no contract on a '
@@ -222,7 +236,7 @@ def main():
                 'engine': 'pyvc',
                 'level_claimed': {'category': cat, 'text': text, 'design_ref': 'DESIGN.md section ' + ref},
                 'level_note': note,
-                'technique': TECH,
+                'technique': TECHNIQUE.get(pid, TECH),
             })
         elif pid in NOT_APPLICABLE:
             na.append({'property_id': pid, 'reason': NOT_APPLICABLE[pid]})
